@@ -1,4 +1,4 @@
-"""C16 -- files survive rope byte-for-byte apart from the intended edit (clauses R16.1-R16.4)."""
+"""C16 -- files survive rope byte-for-byte apart from the intended edit (clauses R16.1-R16.6)."""
 from __future__ import annotations
 
 import ast
@@ -49,6 +49,11 @@ def _chooser(fn, idx, modname):
 
 
 def check(ctx, res) -> None:
+    _check_main(ctx, res)
+    undo_newline_rule(ctx, res, "R16.6")
+
+
+def _check_main(ctx, res) -> None:
     idx = ctx.idx
     enc, dec, dnl = idx.need_func(ENC), idx.need_func(DEC), idx.need_func(DECODE_NL)
     mod = enc.unit.modname
@@ -253,3 +258,41 @@ def check(ctx, res) -> None:
                 "a lone-CR replacement can run before the CRLF replacement: every CRLF becomes two newlines",
                 function=f.qualname)
     res.floor("R16.4", "functions normalising both CRLF and CR", n164, 2)
+
+
+def undo_newline_rule(ctx, res, rule: str) -> None:
+    """R16.6 (shared with C11): the inverse of a content change writes the OLD text; the convention to write it with is a
+    fact about the old text, captured when the change was performed -- it cannot be re-detected from a new text without
+    line breaks.  In every Change whose undo writes text: do() stores `resource.newlines` in an attribute and undo()
+    assigns that attribute back to `resource.newlines` before the write."""
+    from ..cfg import CFG
+    from . import common
+
+    idx = ctx.idx
+    n = 0
+    for c in common.change_classes(idx):
+        do, undo = c.methods.get("do"), c.methods.get("undo")
+        if not do or not undo:
+            continue
+        writes = [x for x in calls_in(undo.node) if call_name(x) == "write_file"]
+        if not writes:
+            continue
+        n += 1
+        captured = {t.attr for x in walk_local(do.node) if isinstance(x, ast.Assign) and isinstance(x.value, ast.Attribute)
+                    and x.value.attr == "newlines" for t in x.targets if is_self_attr(t)}
+        cfg = CFG(undo.node)
+        restores = [nd for nd in cfg.nodes if nd.kind == "stmt" and isinstance(nd.ast, ast.Assign) and any(
+            isinstance(t, ast.Attribute) and t.attr == "newlines" for t in nd.ast.targets) and is_self_attr(nd.ast.value) and nd.ast.value.attr in captured]
+        ok = bool(captured) and bool(restores)
+        if ok:
+            # the restore lies before the write on the path where a convention was captured
+            for w in writes:
+                for wn in cfg.node_containing(w):
+                    if not any(wn.id in cfg.reachable(r.id) for r in restores):
+                        ok = False
+        res.add(rule, f"{c.name}|undo-newlines", ok, undo.where,
+                "undo writes the old text with the newline convention captured by do()" if ok else
+                f"{c.name}.undo writes the old text with whatever newline convention the file has at that moment: when the new text has no line break "
+                "the convention of the replaced text cannot be detected any more, and a CRLF (or CR) file comes back with LF after undo",
+                function=undo.qualname)
+    res.floor(rule, "changes whose undo writes text", n, 1)
